@@ -19,7 +19,7 @@ func init() {
 		ID:   "C01",
 		Rule: "controller-originated messages of every kind (hello, echo request/reply, features/get-config/barrier requests, set-config, flow-mod x 5 commands, group-mod x 3 commands x 4 types, packet-out with payload absent/empty/raw/typed, port-mod, multipart requests, Nicira vendor messages, bundle control, bundle add wrapping any of them) are generated from a PRNG with boundary-biased field values and nested lists of mixed element kinds, built through the public constructors/adders, and encoded; recipes whose reference size exceeds 65535 are discarded. distinct = hash(recipe without xid); non-trivial = at least one nested element, a non-default command, or a wrapper",
 		NumCases: func(tier string, seed uint64) int {
-			return nCases(tier, 40000, 16000000)
+			return nCases(tier, 300000, 16000000)
 		},
 		Gen:     func(tier string, seed uint64, i int) any { return ctrlRecipe(1, tier, seed, i) },
 		NewCase: func() any { return new(rec.Rec) },
